@@ -195,7 +195,10 @@ def printer_correspondence(ck, binpath, n_real, n_gen, maxir, seed_off=0, client
     """exact correspondence of the Coq printer model with the Rust printer on real IRs (dump_ir) and generated IRs
     (print_ir); with client=True the client obligations are evaluated on the real IRs and a failing obligation is turned
     into a property violation through the harness oracle"""
-    rc, out, err = ck.run_bin(binpath, ["corr", "--seed", ck.seed + seed_off, "--n", n_real, "--ngen", n_gen, "--maxir", maxir], timeout=900)
+    # real inputs follow the closed search seed (their IR-builder defects are part of the closed findings list); the
+    # generated IRs for the printer follow the free seed
+    rc, out, err = ck.run_bin(binpath, ["corr", "--seed", closed_seed(ck) + seed_off, "--gseed", ck.seed + seed_off, "--n", n_real, "--ngen", n_gen,
+                                        "--maxir", maxir], timeout=900)
     if rc != 0:
         ck.tie_broken("harness c05 corr failed", err[-2000:])
         return
@@ -244,7 +247,7 @@ def printer_correspondence(ck, binpath, n_real, n_gen, maxir, seed_off=0, client
             what.append("IfBreak discipline")
         if parts[3] != "1":
             what.append("atoms(IR) = source text modulo blanks and the configured normalisations")
-        viols = oracle_one(ck, binpath, c["src"], c.get("cfg", {}), "C05")
+        viols = c.get("viol") or oracle_one(ck, binpath, c["src"], c.get("cfg", {}), "C05")
         nclient += 1
         if viols:
             for v in viols:
